@@ -308,7 +308,24 @@ def conveyor_lines(tier):
     return out
 
 
-FAMILIES = {"splitters": splitters, "lines": core_lines, "congestion": congestion, "diamonds": diamonds, "fans": fans, "combiners": combiners,
+def draining(tier):
+    """finite input and a long horizon: every generated item must end up received or counted as discarded"""
+    out = []
+    for e1, e2 in (("bufF", "buf0"), ("fleet", "bufF"), ("bufL", "fleet"), ("sconvA", "buf0"), ("cconvA", "buf0"), ("buf0", "cconvN")):
+        for sb, mb in ((True, True), (False, True), (True, False)):
+            if not sb and e1 in ("sconvA", "cconvA") or not mb and e2 == "cconvN":
+                continue   # KF1: can_put of conveyors
+            out.append(line(e1, e2, sb=sb, mb=mb, until=60, drains=True))
+    for c in (diamond(until=60), diamond(in_pol="ROUND_ROBIN", out_pol="ROUND_ROBIN", until=60), series(until=60), series(wc1=2, b2=False, until=60),
+              comb_split((1, 1), until=60, n_pal=2, n_item=2), comb_split((1, 2), sinks=2, out_pol="ROUND_ROBIN", until=60, n_pal=2, n_item=4),
+              pallet_split(until=60), fan(3, "ROUND_ROBIN", "machine", True, until=60)):
+        c["drains"] = True
+        c["tag"] += "+drains"
+        out.append(c)
+    return out
+
+
+FAMILIES = {"draining": draining, "splitters": splitters, "lines": core_lines, "congestion": congestion, "diamonds": diamonds, "fans": fans, "combiners": combiners,
             "conveyors": conveyor_lines}
 
 
